@@ -14,6 +14,7 @@ RULE = ('Hypothesis draws (T, v) from the sub-universe of U without IMPLICIT tag
         'walk; for the reference CER and two BER forms (indefinite, indefinite + 3-octet chunks) the decoded leaves equal the DER '
         'leaves (in order; as a multiset when the type contains SET / SET OF). Non-trivial = T contains a container; distinct = '
         'distinct (T, v).')
+RULE += (' ' + 'Also: the typed DER re-encoding as fixpoint (decode without type, encode, decode with type).')
 ASSUMPTIONS = ['input encodings come from pv/core/x690.py, not from the library\'s encoders']
 SHARDS = {'quick': (16, 250), 'thorough': (16, 6000)}
 BUDGET = {'quick': 100, 'thorough': 1500}
